@@ -254,6 +254,18 @@ def run_cross_truncate(ctx):
         bound = [int(x) for x in rng.integers(-1, 7, size=dims)] if rng.random() < .7 else [int(rng.integers(0, 7))]
         norm = gen.choice(rng, [0, 0.5, 0.8, 1, 2, float("inf")])
         cases.append((rows, bound, norm))
+    # tuples exactly on the boundary of the norm ball (sum of squares = b**2, sum = b): they are inside, whatever the
+    # rounding of the floating-point power sum (seeded change C18-9: the rounding slack removed together with the root)
+    import itertools
+    for dims in (2, 3, 4):
+        for b in range(1, 8 if dims < 4 else 7):
+            on2 = [list(x) for x in itertools.product(range(b + 1), repeat=dims) if sum(v * v for v in x) == b * b]
+            on1 = [list(x) for x in itertools.product(range(b + 1), repeat=dims) if sum(x) == b]
+            just_out = [list(x) for x in itertools.product(range(b + 1), repeat=dims) if sum(v * v for v in x) == b * b + 1]
+            if on2:
+                cases.append((on2 + just_out[:10], [b], 2))
+            if on1 and dims < 4:
+                cases.append((on1[:40], [b], 1))
     drv = [{"id": i, "op": "crosstrunc", "rows": r, "bound": (b * len(r[0]) if len(b) == 1 else b), "norm": NORMS[n]}
            for i, (r, b, n) in enumerate(cases)]
     answers = run_driver(drv)
